@@ -19,7 +19,7 @@ Record c18_listen_case := LC {
 }.
 
 (** strict replay returning the index of the first label the model refuses *)
-Fixpoint replay_idx (dec : N -> option N) (c : cfg) (s : lstate) (ls : list label) (k : nat) : lstate + nat :=
+Fixpoint replay_idx (dec : notif -> option (N * option N)) (c : cfg) (s : lstate) (ls : list label) (k : nat) : lstate + nat :=
   match ls with
   | [] => inl s
   | l :: ls' => match lstep dec c s l with Some s' => replay_idx dec c s' ls' (S k) | None => inr k end
@@ -32,7 +32,7 @@ Definition pc_done (p : lpc) : bool := match p with PDone => true | _ => false e
     1 replies read, 2 buffered rest, 4 consumed/acked, 8 channel closed, 16 hook count,
     32 finished-or-not, 64 the model's listener can still move where the implementation is parked *)
 Definition c18_listen_code (k : c18_listen_case) : nat :=
-  let dec := tab_lookup (lc_dec k) in
+  let dec := unm_json (tab_lookup (lc_dec k)) in
   match replay_idx dec (lc_cfg k) (linit (lc_stream k)) (lc_sched k) 0 with
   | inr i => 1000 + i
   | inl s =>
@@ -48,7 +48,7 @@ Definition c18_listen_code (k : c18_listen_case) : nat :=
 
 (** 0 = accepted; 1 = safety clause rejected; 2 = liveness clause rejected; 3 = both *)
 Definition c18_listen_verdict (k : c18_listen_case) : nat :=
-  let dec := tab_lookup (lc_dec k) in
+  let dec := unm_json (tab_lookup (lc_dec k)) in
   (if safe_ok dec (lc_cfg k) (lc_stream k) (lc_obs k) then 0 else 1)
   + (if live_ok (lc_cfg k) (lc_obs k) then 0 else 2).
 
@@ -112,3 +112,53 @@ Definition c18_onproc_violates (k : c18_onproc_case) : bool :=
           (map TP (oc_evs k) ++ map TR (filter (fun e => match e with HCall => false | _ => true end) hev)) (st m)).
 Definition c18_onproc_mismatches (ks : list c18_onproc_case) : list nat := positions (map c18_onproc_mismatch ks).
 Definition c18_onproc_violations (ks : list c18_onproc_case) : list nat := positions (map c18_onproc_violates ks).
+
+(** ** the caller thread (ReqReply/Caller.v): the composed schedule of one request is replayed
+    strictly; the caller must end where the implementation's caller ended (0 = the user owns the
+    channel, 1 = SendWithReply returned the reply it read, 2 = "context closed", 3 = send error)
+    and the listener part must agree with the observation as in [c18_listen_code] *)
+From WM Require Import ReqReply.Caller.
+
+Record c18_caller_case := CC {
+  cc_listen : c18_listen_case;
+  cc_api : api;
+  cc_sched : list clabel;
+  cc_end : nat
+}.
+
+Fixpoint creplay_idx (dec : notif -> option (N * option N)) (c : cfg) (a : api) (s : cstate) (ls : list clabel) (k : nat) : cstate + nat :=
+  match ls with
+  | [] => inl s
+  | l :: ls' => match cstep dec c a s l with Some s' => creplay_idx dec c a s' ls' (S k) | None => inr k end
+  end.
+
+Definition kp_code (dec : notif -> option (N * option N)) (s : cstate) : nat :=
+  match kp s with
+  | KUser => 0
+  | KReturned (OReply r) => match got (lsys s) with [r'] => if reply_eqb r r' then 1 else 9 | _ => 9 end
+  | KReturned OCtxErr => 2
+  | KReturned OSendErr => 3
+  | _ => 8
+  end.
+
+(** 0 = agree; 1000+k = the composed model refuses the k-th label; 500 = the caller ended
+    differently; otherwise the bit set of [c18_listen_code] for the listener part *)
+Definition c18_caller_code (k : c18_caller_case) : nat :=
+  let lc := cc_listen k in
+  let dec := unm_json (tab_lookup (lc_dec lc)) in
+  match creplay_idx dec (lc_cfg lc) (cc_api k) (cinit (lc_stream lc)) (cc_sched k) 0 with
+  | inr i => 1000 + i
+  | inl s =>
+      if negb (Nat.eqb (kp_code dec s) (cc_end k)) then 500 else
+      let o := obs_of (lsys s) in let o' := lc_obs lc in
+      (if replies_eqb (o_got o) (o_got o') then 0 else 1)
+      + (if replies_eqb (o_rest o) (o_rest o') then 0 else 2)
+      + (if Nat.eqb (o_consumed o) (o_consumed o') && list_eqb N.eqb (o_acked o) (o_acked o') then 0 else 4)
+      + (if Bool.eqb (o_closed o) (o_closed o') then 0 else 8)
+      + (if Nat.eqb (o_hooks o) (o_hooks o') then 0 else 16)
+      + (if Bool.eqb (pc_done (pc (lsys s))) (lc_done lc) then 0 else 32)
+      + (if quiescent dec (lc_cfg lc) (lsys s) then 0 else 64)
+  end.
+
+Definition c18_caller_mismatches (ks : list c18_caller_case) : list (nat * nat) :=
+  nonzero_from 0 (map c18_caller_code ks).
